@@ -25,6 +25,14 @@ func init() {
 				tags, nt := histTags(h)
 				emit(Case{Op: h.String(), Tags: tags, NonTrivial: nt})
 			}
+			// tracks whose chunk body crosses 2^16 bytes (thorough: also a multiple of it and 2^17)
+			bodies := []int{65530, 70000}
+			if tier == "thorough" {
+				bodies = []int{65400, 65530, 65600, 70000, 131072, 200000}
+			}
+			for _, b := range bodies {
+				emit(Case{Op: bigTrackHistory(r, b).String(), Tags: []string{"chunk-body>=2^16"}, NonTrivial: true})
+			}
 			// one file with more than 32767 tracks (the reader's track counter must not wrap); judged by the
 			// oracle only: the list-based model is quadratic in the number of tracks
 			nt := 33000
